@@ -138,3 +138,24 @@ Definition bus_violates (c : bus_case) : bool :=
                     (b_tr c) (b_res c)).
 Definition bus_mismatches (cs : list bus_case) : list nat := positions (map bus_mismatch cs).
 Definition bus_violations (cs : list bus_case) : list nat := positions (map bus_violates cs).
+
+(** ** registration: AddHandlers on a command processor (duplicate test, all or nothing) and on
+    an event processor (no test) *)
+Record reg_case := RegC {
+  r_tab : codec_tab;
+  r_cmd : bool;                             (* command processor (true) / event processor *)
+  r_hs : list (handler N);
+  r_dup : option N;                         (* observed DuplicateCommandHandlerError.CommandName *)
+  r_tr : list revent
+}.
+Definition revent_eqb (a b : revent) : bool :=
+  match a, b with
+  | RTopic n1 h1, RTopic n2 h2 | RSub n1 h1, RSub n2 h2 => N.eqb n1 n2 && N.eqb h1 h2
+  | _, _ => false
+  end.
+Definition reg_mismatch (c : reg_case) : bool :=
+  let t := r_tab c in
+  let '(dup, tr) := if r_cmd c then cmd_add_handlers_trace (t_name t) (t_zero t) (r_hs c)
+                    else (None, register_handlers (t_name t) (t_zero t) (r_hs c)) in
+  negb (option_eqb N.eqb dup (r_dup c) && list_eqb revent_eqb tr (r_tr c)).
+Definition reg_mismatches (cs : list reg_case) : list nat := positions (map reg_mismatch cs).
